@@ -17,14 +17,14 @@ import (
 type locKind int
 
 const (
-	lkObj locKind = iota // whole struct object addressed by ref
-	lkField              // direct field of a struct object: heap key F:T.i [base]
-	lkCell               // non-struct cell addressed by ref: heap key C:sort [base]
-	lkSliceElem          // heap key M:sort [base][idx]
-	lkArrElem            // element idx of array value stored at parent
-	lkSub                // field of struct value stored at parent
-	lkGlobal             // heap key G:pkg.name
-	lkArray              // a whole array resident in memory: heap key M:elemsort [base] (base: its own ref, or arrBase(obj, field))
+	lkObj       locKind = iota // whole struct object addressed by ref
+	lkField                    // direct field of a struct object: heap key F:T.i [base]
+	lkCell                     // non-struct cell addressed by ref: heap key C:sort [base]
+	lkSliceElem                // heap key M:sort [base][idx]
+	lkArrElem                  // element idx of array value stored at parent
+	lkSub                      // field of struct value stored at parent
+	lkGlobal                   // heap key G:pkg.name
+	lkArray                    // a whole array resident in memory: heap key M:elemsort [base] (base: its own ref, or arrBase(obj, field))
 )
 
 // validBlock: b names a memory block that exists when the allocation counter is alloc: a slice/array allocated
@@ -57,38 +57,38 @@ type retInfo struct {
 }
 
 type loopState struct {
-	hdr      *ssa.BasicBlock
-	phis     map[*ssa.Phi]Term
-	heap     *Heap // heap at header after havoc
-	measure  *Term
-	ordinal  int
-	vars     map[string]SV // names visible to loop clauses at header
+	hdr     *ssa.BasicBlock
+	phis    map[*ssa.Phi]Term
+	heap    *Heap // heap at header after havoc
+	measure *Term
+	ordinal int
+	vars    map[string]SV // names visible to loop clauses at header
 }
 
 type Exec struct {
-	q         *Q
-	P         *Prog
-	fn        *ssa.Function
-	depth     int
-	stack     []*ssa.Function
-	vals      map[ssa.Value]Term
-	tuples    map[ssa.Value][]Term
-	locs      map[ssa.Value]*Loc
-	reach     map[*ssa.BasicBlock]Term
-	endHeap   map[*ssa.BasicBlock]*Heap
-	entryHeap *Heap
+	q          *Q
+	P          *Prog
+	fn         *ssa.Function
+	depth      int
+	stack      []*ssa.Function
+	vals       map[ssa.Value]Term
+	tuples     map[ssa.Value][]Term
+	locs       map[ssa.Value]*Loc
+	reach      map[*ssa.BasicBlock]Term
+	endHeap    map[*ssa.BasicBlock]*Heap
+	entryHeap  *Heap
 	entryReach Term
-	params    []Term
-	freeVars  []Term
-	rets      []retInfo
-	contract  *Contract
-	li        *LoopInfo
-	lstate    map[*ssa.BasicBlock]*loopState
-	prefix    string
-	counters  map[string]int
-	top       bool
-	closures  map[ssa.Value]*ssa.MakeClosure
-	panicked  []retInfo // explicit panics / exceptional exits (reach, heap)
+	params     []Term
+	freeVars   []Term
+	rets       []retInfo
+	contract   *Contract
+	li         *LoopInfo
+	lstate     map[*ssa.BasicBlock]*loopState
+	prefix     string
+	counters   map[string]int
+	top        bool
+	closures   map[ssa.Value]*ssa.MakeClosure
+	panicked   []retInfo // explicit panics / exceptional exits (reach, heap)
 	skipSafety bool
 	skipAlloc  bool
 	witness    map[string]SV
